@@ -27,7 +27,8 @@ VALUES = [
     ('list_with_bool', [True]), ('list_with_bool', ['@', False]), ('list_with_bool', [[True]]),
     ('list_with_bool', [False, 'role:r1']), ('list_with_bool', [['@'], False]),
     ('list_with_map', [{}]), ('list_with_map', ['@', {}]), ('list_with_map', [{'a': 1}]), ('list_with_map', [[{}]]),
-    ('list_with_map', [{}, '@']),
+    ('list_with_map', [{}, '@']), ('list_with_map', [{'@': None}]), ('list_with_map', [{'role:r1': True}]), ('list_with_map', [['@'], {'@': 1}]),
+    ('list_with_set', [{'@'}]), ('list_with_set', [frozenset(['role:r1'])]),
     ('nested_list', [[['@']]]), ('nested_list', [['@', ['@']]]), ('nested_list', [[[]], '@']),
     ('empty_string', ''), ('empty_list', []), ('at_string', '@'), ('at_list', ['@']), ('at_list', [['@']]),
 ]
@@ -150,8 +151,33 @@ def run(ctx):
             out, how = value_outcome(v, route)
             cases.append({'kind': 'value', 'want': 'c02', 'vclass': vclass, 'outcome': out,
                           '_value': v, '_route': route, '_how': how})
+    # whole documents: a value must be parsed for what it is, whatever else the document holds
+    # (a list rule followed by the string that spells its str(), the same value twice, ...)
+    from oslo_policy import policy as _policy
+    for first in ([], ['@'], [['@']], [['role:r1']], (), ['role:r1', 'role:r2']):
+        for second in (str(first), str(list(first)), repr(first), json.dumps(list(first))):
+            for loader in ('from_dict', 'load'):
+                doc = {'a:first': list(first) if loader == 'load' else first, 'b:second': second}
+                try:
+                    rules = _policy.Rules.from_dict(doc) if loader == 'from_dict' else _policy.Rules.load(json.dumps(doc))
+                    e = pc.enforcer_for({})
+                    e.set_rules(rules, use_conf=False)
+                    allow = any(e.enforce('b:second', dict(t), dict(c)) for t, c in pc.ODD_CREDS)
+                    out = 'allow' if allow else 'deny'
+                except Exception as ex:
+                    out = 'crash'
+                try:
+                    e1 = pc.enforcer_for({'b:second': second})
+                    alone = 'allow' if any(e1.enforce('b:second', dict(t), dict(c)) for t, c in pc.ODD_CREDS) else 'deny'
+                except Exception:
+                    alone = 'crash'
+                cases.append({'kind': 'ctx', 'want': 'c02', 'alone': alone, 'indoc': out, '_value': second,
+                              '_how': 'as value of b:second in the document %r loaded with %s' % (doc, loader)})
     bad = pc.judge(ctx, cases)
     for c in bad:
+        if c['kind'] == 'ctx':
+            ctx.violation('value-depends-on-document', 'the rule value %r decides %s alone but %s %s' % (c['_value'], c['alone'], c['indoc'], c['_how']), pc.describe(c))
+            continue
         if c['kind'] == 'value':
             what = 'rule value %r of class %s is %s (must be rejected at load or deny)' % (c['_value'], c['vclass'], c['outcome']) \
                 if c['vclass'] not in ('empty_string', 'empty_list', 'at_string', 'at_list') else \
@@ -166,7 +192,7 @@ def run(ctx):
                       'garbage_strings': n_g, 'text_cases': n_text, 'value_cases': len(cases) - n_text,
                       'value_classes': sorted({v[0] for v in VALUES})})
     for c in cases[:2] + cases[n_exh:n_exh + 3] + cases[n_text - 3:n_text] + cases[-3:]:
-        ctx.sample({k: c[k] for k in c if k in ('kind', 'toks', '_text', '_value', 'table', 'vclass', 'outcome', '_route', 'extra_allow')})
+        ctx.sample({k: c[k] for k in c if k in ('kind', 'toks', '_text', '_value', 'table', 'vclass', 'outcome', '_route', 'extra_allow', 'alone', 'indoc')})
     ctx.assumptions += [
         'whether a string is a sentence is decided by the recursive-descent grammar in spec/PolicyParser.tla on the token image produced by the independent splitter (harness/lang.py)',
         'garbage strings avoid ":" and "%" so that every word is a keyword, parenthesis, quoted string or colon-less check',
